@@ -84,7 +84,11 @@ def oracle(run: runner.Run, oc: Outcome) -> None:
             continue
         # a. no progress records remain
         recs = st.records(obj)
-        if recs:
+        ctimeout = float(common.spec_of(run, opid)['settings'].get('consistency_timeout', 5.0))
+        blind = any(e[2] == 'fault-echo' and e[4] == name and e[7] - e[6] >= ctimeout * 0.9 for e in run.sim.trace)
+        if recs and blind:
+            oc.probes['probe.records-left-after-blind-steps'] = oc.probes.get('probe.records-left-after-blind-steps', 0) + 1
+        elif recs:
             reverted = common.essence_eq(st.last_handled(obj), common.ref_essence(obj)) and \
                 all(r.get('purpose') == 'update' for r in recs.values())
             oc.add('C03/progress-remains', 'after-reverted-change' if reverted else 'records-at-quiescence',
@@ -113,7 +117,8 @@ def oracle(run: runner.Run, oc: Outcome) -> None:
         for hid, h in hspecs.items():
             if h['kind'] != reason_last:
                 continue
-            close_seq = closing[-1].seq1 if closing[-1].seq1 is not None else float('inf')
+            close_seq = max(w.seq for w in closing[-1].writes
+                            if w.after is not None and st.last_handled(w.after) != st.last_handled(w.before))
             fin = [c for c in calls if c.hid == hid and c.reason == reason_last
                    and changes.final_outcome(c, h) and c.seq0 <= close_seq]
             if not fin:
